@@ -172,6 +172,9 @@ func semDiffers(c *Case, want, impl string) bool {
 	if strings.Contains(c.Req, "(global ") {
 		semStats["with a global, semantics:"+wf[0]]++
 	}
+	if strings.Contains(c.Req, "7b706c7572616c20") { // "{plural "
+		semStats["with {plural}, semantics:"+wf[0]]++
+	}
 	if strings.Contains(c.Req, "7b6d736720") { // "{msg "
 		semStats["with {msg}, semantics:"+wf[0]]++
 	}
@@ -215,7 +218,7 @@ func init() {
 	}
 	register(&Prop{
 		ID: "C04sem",
-		Rule: "validation of the trusted JavaScript semantics: generated files ({msg} without a bundle — text, HTML tags, print and call placeholders — among the commands) — an entry template and, in half of them, one or two templates it calls ({call} with value and content params, no data / data=\"all\" / data=\"$m\", callees calling callees, calls inside loops and content blocks; the semantics runs the callee's translated body as the callee oracle) — of the command fragment of Props/C04d (raw text with quotes, backslashes and HTML-special bytes; prints of int / string / bool expressions with no directive, |id, |noAutoescape, |escapeHtml under the three autoescape settings; let (value and content blocks) with fresh and SHADOWING names; if/elseif/else; foreach with and without ifempty over list parameters and map fields, for over range(…) with one to three arguments (positive literal step), switch on ints / strings with labels of both types, loop variables shadowing parameters, index / isFirst / isLast of the enclosing loops' variables; " +
+		Rule: "validation of the trusted JavaScript semantics: generated files ({msg} without a bundle — text, HTML tags, print and call placeholders, {plural} — among the commands) — an entry template and, in half of them, one or two templates it calls ({call} with value and content params, no data / data=\"all\" / data=\"$m\", callees calling callees, calls inside loops and content blocks; the semantics runs the callee's translated body as the callee oracle) — of the command fragment of Props/C04d (raw text with quotes, backslashes and HTML-special bytes; prints of int / string / bool expressions with no directive, |id, |noAutoescape, |escapeHtml under the three autoescape settings; let (value and content blocks) with fresh and SHADOWING names; if/elseif/else; foreach with and without ifempty over list parameters and map fields, for over range(…) with one to three arguments (positive literal step), switch on ints / strings with labels of both types, loop variables shadowing parameters, index / isFirst / isLast of the enclosing loops' variables; " +
 			"expressions: $ij references (the injected data, also inside callees) and scalar compile-time globals, + - * % on small ints, string concatenation, comparisons, same-type equality, and/or/not, ?:, elvis on a nullable, .k / ?.k / [i] accesses, length, isNonnull, floor/ceiling/round/min/max) x 3 data sets (one of them with missing map fields, null and undefined values, empty lists: TypeErrors and ifempty branches); " +
 			"soyjs.Write's statement text and its run in otto versus renderStmts(toCmds) and its run under Spec/JsStmt.execStmts in the driver, from the same data: text byte for byte, and the completion (output string / TypeError) wherever the semantics is not `unspec`; plus hand-written cases; non-trivial = the engine returns a non-empty string or throws",
 		Gen:         genC04sem,
@@ -594,9 +597,8 @@ func (g *semGen) call(d int) string {
 
 // {msg}: without a message bundle the generator writes the parts one after the other — raw text, HTML tags and the
 // placeholders (prints, now and then a call)
-func (g *semGen) msg(d int) string {
-	var b strings.Builder
-	b.WriteString("{msg desc=\"" + g.r.Pick([]string{"d", "a b", "x"}) + "\"}")
+// the parts of a message or of a plural case: raw text, HTML tags, print (and call) placeholders
+func (g *semGen) msgParts(b *strings.Builder) {
 	for i, n := 0, 1+g.r.Intn(5); i < n; i++ {
 		switch g.r.Intn(6) {
 		case 0, 1:
@@ -616,6 +618,36 @@ func (g *semGen) msg(d int) string {
 			b.WriteString("{" + g.exprOf(t, 1) + g.r.Pick([]string{"", "", "|id", "|noAutoescape", "|escapeHtml"}) + "}")
 		}
 	}
+}
+
+func (g *semGen) msg(d int) string {
+	var b strings.Builder
+	b.WriteString("{msg desc=\"" + g.r.Pick([]string{"d", "a b", "x"}) + "\"}")
+	if g.r.Intn(3) == 0 {
+		// {plural}: without a bundle a switch on the value — explicit cases, then the default
+		var val string
+		if g.r.Intn(10) == 0 {
+			val = g.strE(0) // no number: JavaScript takes the default, the semantics is silent
+		} else {
+			val = g.intE(1)
+		}
+		b.WriteString("{plural " + val + "}")
+		seen := map[int]bool{}
+		for i, n := 0, g.r.Intn(4); i < n; i++ {
+			v := g.r.Intn(6)
+			if seen[v] {
+				continue
+			}
+			seen[v] = true
+			b.WriteString(fmt.Sprintf("{case %d}", v))
+			g.msgParts(&b)
+		}
+		b.WriteString("{default}")
+		g.msgParts(&b)
+		b.WriteString("{/plural}{/msg}")
+		return b.String()
+	}
+	g.msgParts(&b)
 	b.WriteString("{/msg}")
 	return b.String()
 }
@@ -913,6 +945,9 @@ var semHands = []struct{ src, data string }{
 	// $ij: the third parameter, passed down by calls; null-safe access; globals are literals
 	{"{namespace sem}\n/** @param n */\n{template .t}\n{$ij.a + $n}|{$ij.s}|{$ij.q.z}|{$ij.q?.z}{$ij?.a}|{call .c /}|{G_I + 1}{G_S}{G_T ? 'y' : 'n'}{isNonnull(G_NULL)}\n{/template}\n/***/\n{template .c}\n<{$ij.a * 2}{$ij.s|noAutoescape}{G_NEG}>\n{/template}\n", "(m (6e (i 5)))"},
 	{"{namespace sem}\n/***/\n{template .t}\nA{$ij.x.y}B\n{/template}\n", "(m)"},
+	// {plural} without a bundle: the explicit case, else the default
+	{"{namespace sem}\n/** @param n\n @param s */\n{template .t}\n{msg desc=\"d\"}{plural $n}{case 0}none{case 4}four <b>{$s}</b>{default}{$n} things{/plural}{/msg}|{msg desc=\"e\"}{plural $n + 1}{case 1}one{default}many{/plural}{/msg}\n{/template}\n", "(m (6e (i 4)) (73 (s 3c26)))"},
+	{"{namespace sem}\n/** @param n\n @param s */\n{template .t}\n{msg desc=\"d\"}{plural $n}{case 0}none{case 4}four <b>{$s}</b>{default}{$n} things{/plural}{/msg}|{msg desc=\"e\"}{plural $n + 1}{case 1}one{default}many{/plural}{/msg}\n{/template}\n", "(m (6e (i 0)) (73 (s 78)))"},
 	// raw text with every escape class
 	{"{namespace sem}\n{template .t}\na'b\"c\\d<e>&f=g{sp}{nil}{\\n}{\\t}{lb}{rb}é \n{/template}\n", "(m)"},
 }
